@@ -114,7 +114,10 @@ class Ctx:
         e = dict(os.environ)
         if env:
             e.update(env)
-        java = ['java', '-XX:+UseParallelGC', '-Xss64m']
+        # TLC leaves an empty directory per run in java.io.tmpdir: keep it in the scratch directory
+        jtmp = self.path('jtmp')
+        os.makedirs(jtmp, exist_ok=True)
+        java = ['java', '-XX:+UseParallelGC', '-Xss64m', '-Djava.io.tmpdir=' + jtmp]
         if heap:
             java.append('-Xmx' + heap)
         java += list(jvm)
